@@ -1,4 +1,5 @@
-//! Oracle for Unicode property escapes (Unicode 17, generated from ICU; see tools/gen_props_oracle.js).
+//! Oracle for Unicode property escapes (Unicode 17, generated from ICU by tools/gen_props_oracle.js
+//! and tools/gen_strings_oracle.js; V8 is the judge of which expressions ES admits).
 use std::collections::HashMap;
 use std::rc::Rc;
 use std::sync::OnceLock;
@@ -9,10 +10,16 @@ pub enum PropVal {
 }
 
 pub struct PropTables {
-    /// expression text (as written between the braces) -> interval list
-    pub sets: HashMap<String, Vec<(u32, u32)>>,
-    /// property-of-strings name -> strings
+    /// distinct interval sets
+    pub sets: Vec<Vec<(u32, u32)>>,
+    /// accepted expression (text between the braces) -> index into sets
+    pub names: HashMap<String, usize>,
+    /// expressions V8 rejects
+    pub rejected: Vec<String>,
+    /// property-of-strings name -> accepted strings
     pub strings: HashMap<String, Vec<Vec<u32>>>,
+    /// every string that was judged when the oracle was generated
+    pub universe: Vec<Vec<u32>>,
 }
 
 static TABLES: OnceLock<PropTables> = OnceLock::new();
@@ -30,40 +37,62 @@ fn parse_intervals(s: &str) -> Vec<(u32, u32)> {
     v
 }
 
+fn parse_seq(s: &str) -> Vec<u32> {
+    s.split('+').map(|h| u32::from_str_radix(h, 16).unwrap()).collect()
+}
+
+fn unquote(s: &str) -> String {
+    // JSON string as written by the generator (ASCII content, simple escapes only)
+    match crate::json::parse(s) {
+        Ok(crate::json::J::Str(x)) => x,
+        _ => s.to_string(),
+    }
+}
+
 fn load() -> PropTables {
     let dir = crate::fold::root().join("oracle");
-    let mut sets = HashMap::new();
+    let mut sets = Vec::new();
+    let mut set_ids: HashMap<String, usize> = HashMap::new();
+    let mut names = HashMap::new();
+    let mut rejected = Vec::new();
     let mut strings = HashMap::new();
-    if let Ok(txt) = std::fs::read_to_string(dir.join("props_u17.tsv")) {
-        for line in txt.lines() {
-            if line.starts_with('#') || line.is_empty() {
-                continue;
-            }
-            let mut it = line.splitn(2, '\t');
-            let name = it.next().unwrap();
-            let ivs = it.next().unwrap_or("");
-            sets.insert(name.to_string(), parse_intervals(ivs));
+    let mut universe = Vec::new();
+    let rd = |n: &str| std::fs::read_to_string(dir.join(n)).unwrap_or_else(|e| panic!("oracle/{}: {}", n, e));
+    for line in rd("props_sets_u17.tsv").lines() {
+        if line.starts_with('#') || line.is_empty() {
+            continue;
         }
+        let (id, ivs) = line.split_once('\t').unwrap_or((line, ""));
+        set_ids.insert(id.to_string(), sets.len());
+        sets.push(parse_intervals(ivs));
     }
-    if let Ok(txt) = std::fs::read_to_string(dir.join("strings_u17.tsv")) {
-        for line in txt.lines() {
-            if line.starts_with('#') || line.is_empty() {
-                continue;
-            }
-            let mut it = line.splitn(2, '\t');
-            let name = it.next().unwrap();
-            let rest = it.next().unwrap_or("");
-            let mut v = Vec::new();
-            for s in rest.split(' ') {
-                if s.is_empty() {
-                    continue;
-                }
-                v.push(s.split('+').map(|h| u32::from_str_radix(h, 16).unwrap()).collect());
-            }
-            strings.insert(name.to_string(), v);
+    for line in rd("props_names_u17.tsv").lines() {
+        if line.starts_with('#') || line.is_empty() {
+            continue;
         }
+        let (name, id) = line.split_once('\t').unwrap();
+        names.insert(name.to_string(), set_ids[id.trim_start_matches('@')]);
     }
-    PropTables { sets, strings }
+    for line in rd("props_rejected_u17.txt").lines() {
+        if line.starts_with('#') || line.is_empty() {
+            continue;
+        }
+        rejected.push(unquote(line));
+    }
+    for line in rd("strings_u17.tsv").lines() {
+        if line.starts_with('#') || line.is_empty() {
+            continue;
+        }
+        let (name, rest) = line.split_once('\t').unwrap_or((line, ""));
+        strings.insert(name.to_string(), rest.split(' ').filter(|s| !s.is_empty()).map(parse_seq).collect());
+    }
+    for line in rd("strings_universe_u17.txt").lines() {
+        if line.starts_with('#') || line.is_empty() {
+            continue;
+        }
+        universe.push(parse_seq(line));
+    }
+    PropTables { sets, names, rejected, strings, universe }
 }
 
 pub fn tables() -> &'static PropTables {
@@ -73,8 +102,8 @@ pub fn tables() -> &'static PropTables {
 /// Look up the text between the braces of \p{...}. `vmode` admits properties of strings.
 pub fn lookup(expr: &str, vmode: bool) -> Option<PropVal> {
     let t = tables();
-    if let Some(iv) = t.sets.get(expr) {
-        return Some(PropVal::Set(Rc::new(iv.clone())));
+    if let Some(&i) = t.names.get(expr) {
+        return Some(PropVal::Set(Rc::new(t.sets[i].clone())));
     }
     if vmode {
         if let Some(s) = t.strings.get(expr) {
